@@ -121,6 +121,39 @@ def collision_grammars(rng, n):
     return ags
 
 
+def collision_split_grammars(rng, n):
+    """a rule for X that is certainly split (a chain of 4-5 nodes) in a grammar that already has a label named like the
+    fresh nonterminal would be (X_1: a terminal or a nonterminal with its own rule), mentioned only in OTHER rules, in
+    every rule order -- the fresh names must avoid the labels of the whole grammar, not of the rules seen so far"""
+    ags = []
+    for k in range(n):
+        d = rng.choice([1, 2])
+        xar = rng.choice([0, 1])
+        clash_t = rng.random() < 0.5
+        car = rng.choice([1, 2])
+        els = {'S': {'t': False, 'type': []}, 'X': {'t': False, 'type': ['T'] * xar}, 'c': {'t': True, 'type': ['T', 'T']},
+               'X_1': {'t': clash_t, 'type': ['T'] * car}}
+        m = rng.choice([4, 5])
+        chain = [{'lab': 'c', 'att': [j, j + 1]} for j in range(1, m)]
+        rng.shuffle(chain)
+        rules = [{'lhs': 'X', 'nodes': ['T'] * m, 'edges': chain, 'ext': [rng.randint(1, m)] * xar},
+                 {'lhs': 'S', 'nodes': ['T', 'T'], 'edges': [{'lab': 'X', 'att': [1] * xar}, {'lab': 'X_1', 'att': [1, 2][:car]}], 'ext': []}]
+        if not clash_t:
+            els['f'] = {'t': True, 'type': ['T'] * car}
+            rules.append({'lhs': 'X_1', 'nodes': ['T'] * car, 'edges': [{'lab': 'f', 'att': list(range(1, car + 1))}], 'ext': list(range(1, car + 1))})
+        order = list(range(len(rules)))
+        if k % 2 == 0:
+            rng.shuffle(order)           # X first in about half of them; the other half keeps X first
+        rules = [rules[j] for j in order]
+        tn = [t for t, v in els.items() if v['t']]
+        elorder = list(els)
+        rng.shuffle(elorder)
+        w = {t: [rng.randint(1, 3) for _ in range(d ** len(els[t]['type']))] for t in tn}
+        ags.append({'nls': {'T': d}, 'els': els, 'elorder': elorder, 'start': 'S', 'rules': rules, 'w': w,
+                    'wmp': {t: [0] * len(v) for t, v in w.items()}})
+    return ags
+
+
 def witness_grammars(rng, want, tries=4000):
     """single-rule grammars whose primal graph makes min_fill sub-optimal (candidates by search
     with the library's own bounds; TLC recomputes the treewidth when judging)."""
@@ -184,6 +217,7 @@ def run(tier, seed):
     for i in range(n):
         ags.append(AG.gen_ag(rng, recursion='none', value_cap=1 << 20, **profiles[i % 3]))
     ags += collision_grammars(rng, 10 if tier == 'quick' else 60)
+    ags += collision_split_grammars(rng, 12 if tier == 'quick' else 80)
     wit = witness_grammars(rng, 3 if tier == 'quick' else 12)
     o.extra['min_fill_suboptimal_witnesses'] = len(wit)
     ags += wit
